@@ -13,13 +13,15 @@ use std::io::Read;
 use std::num::NonZeroUsize;
 
 pub const PAT_LEN: usize = 4096;
-/// Payload source: position dependent, never 0xFC (free poison), 0xEE
-/// (placeholder filler) or 0xB0..0xBF (backfill values).
+/// Payload source: position dependent, mostly values that are never 0xFC (free poison), 0xEE
+/// (placeholder filler) or 0xB0..0xBF (backfill values); two regions hold runs of 0x00 and of 0xFF
+/// bytes, so that some payloads are all zeros, all ones, or end / start with such a run (byte
+/// values are opaque to a byte pipe: nothing may depend on them).
 pub static PAT: [u8; PAT_LEN] = {
     let mut a = [0u8; PAT_LEN];
     let mut i = 0;
     while i < PAT_LEN {
-        a[i] = 1 + ((i * 7 + i / 173) % 0xAF) as u8;
+        a[i] = if i >= 3000 && i < 3300 { 0x00 } else if i >= 3300 && i < 3700 { 0xFF } else { 1 + ((i * 7 + i / 173) % 0xAF) as u8 };
         i += 1;
     }
     a
@@ -43,6 +45,8 @@ pub enum K {
     Register(u8),
     /// index into the pending list: 0, 1, 2, or 255 = last
     Backfill(u8),
+    /// backfill with exactly the bytes the placeholder was registered with (a legal value like any other)
+    BackfillSame(u8),
     Clear,
     Take,
     FlushCache,
@@ -113,6 +117,7 @@ impl Op {
             K::BackfillWrongSize(i) => format!("backfill_wrong_size({})", i),
             K::Register(n) => format!("register_patch({})", n),
             K::Backfill(i) => format!("backfill({})", i),
+            K::BackfillSame(i) => format!("backfill_same({})", i),
             K::Clear => "clear".to_string(),
             K::Take => "take".to_string(),
             K::FlushCache => "flush_cache".to_string(),
@@ -165,6 +170,7 @@ impl Op {
             ("backfill_wrong_size", Some(n)) => K::BackfillWrongSize(n as u8),
             ("register_patch", Some(n)) => K::Register(n as u8),
             ("backfill", Some(n)) => K::Backfill(n as u8),
+            ("backfill_same", Some(n)) => K::BackfillSame(n as u8),
             ("clear", None) => K::Clear,
             ("take", None) => K::Take,
             ("flush_cache", None) => K::FlushCache,
@@ -502,6 +508,7 @@ impl Exec {
                     i => n > i as usize && !(i as usize == n - 1 && n >= 1 && false),
                 }
             }
+            K::BackfillSame(i) => side.pending.len() > i as usize && side.pending.iter().all(|p| p.token.is_some()),
             K::Register(_) => side.pending.len() < 12,
             K::BackfillWrongSize(i) => side.pending.len() > i as usize && side.pending.iter().all(|p| p.token.is_some()),
             K::PopFront => !side.iov.stable_prefix().is_empty(),
@@ -637,11 +644,16 @@ impl Exec {
                     s.pending.push(Pending { token: Some(token), pos, len: n as usize, id });
                 }
             }
-            K::Backfill(i) => {
+            K::Backfill(_) | K::BackfillSame(_) => {
                 let s = self.sides[si].as_mut().unwrap();
+                let (i, same) = match op.k {
+                    K::Backfill(i) => (i, false),
+                    K::BackfillSame(i) => (i, true),
+                    _ => unreachable!(),
+                };
                 let idx = if i == 255 { s.pending.len() - 1 } else { i as usize };
                 let p = s.pending.remove(idx);
-                let value: Vec<u8> = (0..p.len).map(|j| 0xB0 + ((p.id as usize * 3 + j) % 16) as u8).collect();
+                let value: Vec<u8> = if same { vec![HOLE_FILLER; p.len] } else { (0..p.len).map(|j| 0xB0 + ((p.id as usize * 3 + j) % 16) as u8).collect() };
                 s.iov.backfill_or_panic(p.token.expect("enabled() keeps tokenless placeholders out"), &value);
                 for (j, b) in value.iter().enumerate() {
                     s.model[p.pos + j] = Cell::Byte(*b);
